@@ -5,6 +5,7 @@ import (
 	"encoding/binary"
 	"errors"
 	"fmt"
+	"math"
 	"sort"
 	"strconv"
 	"strings"
@@ -56,6 +57,9 @@ const (
 	NNormalSeats   = 2
 	LockupBlocks   = 3 // DepositLockupBlocks
 	MinDepositSela = 5000 * 100000000
+	V2Votes        = 200     // DPoS v2 votes cast per vote transaction
+	V2Lock         = 7200    // lock duration of a DPoS v2 vote (weight log10(7200/720) = 1)
+	V2StakeUntil   = 1000000 // StakeUntil of producers upgraded to DPoS v1+v2
 )
 
 // World is the fixed cast of a DPoS history: parameters, producers, voters.
@@ -100,6 +104,10 @@ func NewWorld() *World {
 	p.DPoSConfiguration.MaxInactiveRounds = 4
 	p.DPoSV2StartHeight = HDPoSV2Start
 	p.DPoSV2EffectiveVotes = 100
+	// lock times are NOT compressed: the vote weight is log10(lock duration/720), which only
+	// makes sense for the real durations; votes of the harness lock for exactly 7200 blocks
+	p.DPoSConfiguration.DPoSV2DepositCoinMinLockTime = 7200
+	p.DPoSConfiguration.DPoSV2MinVotesLockTime = 7200
 	p.DPoSConfiguration.SponsorsFilePath = "/nonexistent/verif-sponsors"
 	w.Params = p
 	return w
@@ -295,6 +303,52 @@ func (in *Inst) TxReturnDeposit(h uint32, i int) interfaces.Transaction {
 	return tx
 }
 
+// TxStake: voter v exchanges amount for DPoS v2 vote rights (ExchangeVotes).
+func (in *Inst) TxStake(h uint32, v int, amount common.Fixed64) interfaces.Transaction {
+	out := &common2.Output{Value: amount, ProgramHash: *in.W.Params.StakePoolProgramHash, Type: common2.OTStake,
+		Payload: &outputpayload.ExchangeVotesOutput{Version: 0, StakeAddress: in.W.Voter[v].StakeHash()}}
+	tx := functions.CreateTransaction(common2.TxVersion09, common2.ExchangeVotes, 0, &payload.ExchangeVotes{},
+		in.nonce(h), []*common2.Input{}, []*common2.Output{out}, 0, []*program.Program{{Code: in.W.Voter[v].Code()}})
+	in.record(tx)
+	return tx
+}
+
+// TxV2Vote: voter v casts DPoS v2 votes for producer i, locked until lock.
+func (in *Inst) TxV2Vote(h uint32, v, i int, votes common.Fixed64, lock uint32) interfaces.Transaction {
+	pl := &payload.Voting{Contents: []payload.VotesContent{{VoteType: outputpayload.DposV2,
+		VotesInfo: []payload.VotesWithLockTime{{Candidate: in.W.Owner[i].PK, Votes: votes, LockTime: lock}}}}}
+	return functions.CreateTransaction(common2.TxVersion09, common2.Voting, payload.VoteVersion, pl,
+		in.nonce(h), []*common2.Input{}, []*common2.Output{}, 0, []*program.Program{{Code: in.W.Voter[v].Code()}})
+}
+
+// TxRenew: voter v extends the lock time of one of its DPoS v2 votes.
+func (in *Inst) TxRenew(h uint32, v int, d payload.DetailedVoteInfo, lock uint32) interfaces.Transaction {
+	vi := d.Info[0]
+	vi.LockTime = lock
+	pl := &payload.Voting{RenewalContents: []payload.RenewalVotesContent{{ReferKey: d.ReferKey(), VotesInfo: vi}}}
+	return functions.CreateTransaction(common2.TxVersion09, common2.Voting, payload.RenewalVoteVersion, pl,
+		in.nonce(h), []*common2.Input{}, []*common2.Output{}, 0, []*program.Program{{Code: in.W.Voter[v].Code()}})
+}
+
+// TxIllegalProposal: evidence that the arbiter with node key nodeKey signed two different
+// proposals for the same height and view.
+func (in *Inst) TxIllegalProposal(h uint32, node *Key) interfaces.Transaction {
+	mk := func(tag byte) payload.ProposalEvidence {
+		hdr := common2.Header{Version: 1, Height: h - 1, Timestamp: 1600000000 + 120*(h-1) + uint32(tag), Bits: 0x207fffff}
+		buf := new(bytes.Buffer)
+		hdr.Serialize(buf)
+		p := payload.DPOSProposal{Sponsor: node.PK, BlockHash: hdr.Hash(), ViewOffset: 0}
+		p.Sign = node.Sign(p.Data())
+		return payload.ProposalEvidence{Proposal: p, BlockHeader: buf.Bytes(), BlockHeight: h - 1}
+	}
+	a, b := mk(1), mk(2)
+	if a.Proposal.Hash().Compare(b.Proposal.Hash()) > 0 {
+		a, b = b, a
+	}
+	return functions.CreateTransaction(common2.TxVersion09, common2.IllegalProposalEvidence, payload.IllegalProposalVersion,
+		&payload.DPOSIllegalProposals{Evidence: a, CompareEvidence: b}, []*common2.Attribute{}, []*common2.Input{}, []*common2.Output{}, 0, []*program.Program{})
+}
+
 func (in *Inst) TxRevertToPOW(h uint32) interfaces.Transaction {
 	return functions.CreateTransaction(common2.TxVersion09, common2.RevertToPOW, payload.RevertToPOWVersion,
 		&payload.RevertToPOW{Type: payload.NoBlock, WorkingHeight: h}, []*common2.Attribute{}, []*common2.Input{}, []*common2.Output{}, 0, []*program.Program{})
@@ -422,6 +476,20 @@ func (in *Inst) Consistent() (bool, string) {
 	return true, ""
 }
 
+func hashPtr(h common.Uint168) *common.Uint168 { return &h }
+
+// nodeKey finds the harness key of a node public key.
+func (in *Inst) nodeKey(pk []byte) *Key {
+	for _, ks := range [][]*Key{in.W.Node, in.W.NewNode} {
+		for _, k := range ks {
+			if bytes.Equal(k.PK, pk) {
+				return k
+			}
+		}
+	}
+	return nil
+}
+
 // Representatives returns two producers that stand for the two roles the four symmetric
 // producers can have once all are voted equally: the first by node key (fills a CRC seat after
 // ChangeCommitteeNewCRHeight) and the third (fills a normal seat).
@@ -510,6 +578,56 @@ func (in *Inst) OpsFor(only []int) []string {
 			ops = append(ops, fmt.Sprintf("unvote:%d", v))
 		}
 	}
+	if h >= HDPoSV2Start {
+		for v := 0; v < NVoters; v++ {
+			ops = append(ops, fmt.Sprintf("stake:%d", v))
+			rights, exist, used := in.A.GetDposV2VoteRights(in.W.Voter[v].StakeHash())
+			if !exist {
+				continue
+			}
+			for i := 0; i < NProducers; i++ {
+				if !allowed(i) {
+					continue
+				}
+				p := in.prod(i)
+				if p == nil || p.State() != state.Active || p.Identity() == state.DPoSV1 {
+					continue
+				}
+				if rights-used >= V2Votes && h+V2Lock <= p.Info().StakeUntil {
+					ops = append(ops, fmt.Sprintf("v2vote:%d>%d", v, i))
+				}
+			}
+			if ds := in.A.GetDetailedDPoSV2Votes(hashPtr(in.W.Voter[v].StakeHash())); len(ds) > 0 {
+				d := ds[0]
+				if p := in.A.GetProducer(d.Info[0].Candidate); p != nil && d.Info[0].LockTime+100 <= p.Info().StakeUntil {
+					ops = append(ops, fmt.Sprintf("renew:%d", v))
+				}
+			}
+		}
+		for i := 0; i < NProducers; i++ {
+			if !allowed(i) {
+				continue
+			}
+			if p := in.prod(i); p != nil && p.State() == state.Active && p.Identity() == state.DPoSV1 {
+				ops = append(ops, fmt.Sprintf("upv2:%d", i))
+			}
+		}
+	}
+	// evidence against a current arbiter that is an active or inactive producer
+	if h >= HPublicDPOS && !pow {
+		for i := 0; i < NProducers; i++ {
+			if !allowed(i) {
+				continue
+			}
+			p := in.prod(i)
+			if p == nil || (p.State() != state.Active && p.State() != state.Inactive) {
+				continue
+			}
+			if in.A.IsArbitrator(p.NodePublicKey()) && in.nodeKey(p.NodePublicKey()) != nil {
+				ops = append(ops, fmt.Sprintf("illegal:%d", i))
+			}
+		}
+	}
 	if h >= HNewCR {
 		if !pow {
 			ops = append(ops, "pow")
@@ -549,7 +667,7 @@ func (in *Inst) Apply(op string) {
 			nick = fmt.Sprintf("p%d", i)
 			node = in.W.Node[i]
 		}
-		in.Process(in.TxUpdate(h, i, nick, node, 0))
+		in.Process(in.TxUpdate(h, i, nick, node, p.Info().StakeUntil))
 	case "cancel":
 		in.Process(in.TxCancel(h, atoi(arg)))
 	case "act":
@@ -564,6 +682,27 @@ func (in *Inst) Apply(op string) {
 		in.Process(in.TxVote(h, atoi(v), []int{atoi(c)}, common.Fixed64(1000+100*atoi(v))))
 	case "unvote":
 		in.Process(in.TxUnvote(h, atoi(arg)))
+	case "stake":
+		in.Process(in.TxStake(h, atoi(arg), 1000))
+	case "v2vote":
+		v, c, _ := strings.Cut(arg, ">")
+		in.Process(in.TxV2Vote(h, atoi(v), atoi(c), V2Votes, h+V2Lock))
+	case "renew":
+		v := atoi(arg)
+		d := in.A.GetDetailedDPoSV2Votes(hashPtr(in.W.Voter[v].StakeHash()))[0]
+		in.Process(in.TxRenew(h, v, d, d.Info[0].LockTime+100))
+	case "upv2":
+		i := atoi(arg)
+		p := in.prod(i)
+		info := p.Info()
+		var node *Key
+		if node = in.nodeKey(info.NodePublicKey); node == nil {
+			panic("unknown node key")
+		}
+		in.Process(in.TxUpdate(h, i, info.NickName, node, V2StakeUntil))
+	case "illegal":
+		p := in.prod(atoi(arg))
+		in.Process(in.TxIllegalProposal(h, in.nodeKey(p.NodePublicKey())))
 	case "pow":
 		in.Process(in.TxRevertToPOW(h))
 	case "dpos":
@@ -571,4 +710,48 @@ func (in *Inst) Apply(op string) {
 	default:
 		panic("unknown op " + op)
 	}
+}
+
+// ---- checkpoints ----------------------------------------------------------------------------
+
+func (in *Inst) registered() checkpoint.ICheckPoint {
+	cp, ok := in.Ckp.GetCheckpoint(state.CheckpointKey, math.MaxUint32)
+	if !ok || cp == nil {
+		panic("dpos checkpoint not registered")
+	}
+	return cp
+}
+
+// SaveCheckpoint produces the bytes the checkpoint manager would write for the DPoS state at
+// the current height (Manager.onBlockSaved: SetHeight, Snapshot, Serialize).
+func (in *Inst) SaveCheckpoint() ([]byte, error) {
+	cp := in.registered()
+	cp.SetHeight(in.Height)
+	snap := cp.Snapshot()
+	if snap == nil {
+		return nil, errors.New("Snapshot() returned nil")
+	}
+	buf := new(bytes.Buffer)
+	if err := snap.Serialize(buf); err != nil {
+		return nil, err
+	}
+	return buf.Bytes(), nil
+}
+
+// RestoreInst builds a fresh instance and loads data into it the way Manager.Restore does
+// (Deserialize into the registered checkpoint, OnInit); the new instance shares the block
+// store of src, so that the blocks above the checkpoint can be fed with Reprocess.
+func (w *World) RestoreInst(src *Inst, height uint32, data []byte) (*Inst, error) {
+	in := w.NewInst()
+	cp := in.registered()
+	if err := cp.Deserialize(bytes.NewReader(data)); err != nil {
+		in.Close()
+		return nil, err
+	}
+	cp.OnInit()
+	in.Blocks = src.Blocks
+	in.Confirms = src.Confirms
+	in.outs = src.outs
+	in.Height = height
+	return in, nil
 }
